@@ -246,8 +246,9 @@ UnansweredEv(e, s) ==
   IN /\ IF lost
           THEN (~Drifted(e) /\ <<e.run, "lost">> \notin seen =>
                   Report("VIOL", e, [fails |-> {"lost"}, how |-> why, noEffect |-> okU, anom |-> e.anom]))
-          ELSE (* (after a reported loss the script's later steps may refer to what was lost: not reported again) *)
-               (~Drifted(e) /\ <<e.run, why>> \notin seen /\ <<e.run, "lost">> \notin seen =>
+          ELSE (* (after a reported loss or unanswered read of an existing path, further unanswered steps of the run whose effect
+                  cannot be told apart are not reported again) *)
+               (~Drifted(e) /\ <<e.run, why>> \notin seen /\ <<e.run, "lost">> \notin seen /\ <<e.run, "unread">> \notin seen =>
                   Report("DRIFT", e, [fails |-> {why}, tookEffect |-> okA, noEffect |-> okU, anom |-> e.anom]))
      /\ seen' = seen \cup {IF lost THEN <<e.run, "lost">> ELSE <<e.run, why>>}
                      \cup (IF okA \/ okU THEN {} ELSE {<<e.run, "drift">>})
